@@ -224,6 +224,34 @@ class HookVal:
         return 'http://h/' + str(self.h)
 
 
+class Mutator:
+    """Callable that changes the size of a mapping that is on the namespace
+    stack (the harness sets .target): mode 'add' binds a new key, 'del'
+    removes a spare key."""
+
+    def __init__(self, world, mid, mode):
+        self.world, self.mid, self.mode = world, mid, mode
+        self.target = None
+        self.n = 0
+
+    def __call__(self):
+        self.world.tick(('mutate', self.mid))
+        t = self.target
+        if t is not None:
+            self.n += 1
+            if self.mode == 'add':
+                t['zz%s%d' % (self.mid, self.n)] = self.n
+            else:
+                for k in sorted(t):
+                    if k.startswith('spare'):
+                        del t[k]
+                        break
+        return ''
+
+    def __repr__(self):
+        return '<Mutator %s>' % self.mid
+
+
 class TreeNode:
     """Node for dtml-tree: tpValues / tpId / tpURL / kids are invocation
     points."""
@@ -321,6 +349,8 @@ def build(spec, world, mode, keep=None):
                          for x in spec.get('children', [])])
     if t == 'response':
         return Response(world)
+    if t == 'mutator':
+        return Mutator(world, spec['id'], spec['mode'])
     if t == 'exc':
         return EXC[spec['n']]
     if t == 'tmpl':
